@@ -212,7 +212,7 @@ class Msg:
     def case(self):
         return {'head': self.head, 'framed': self.framed, 'surplus': self.surplus, 'payload': self.payload,
                 'method': self.method, 'version': self.version, 'code': self.code, 'framing': self.framing,
-                'wf': self.wf, 'coding': self.coding, 'conn_close': self.conn_close}
+                'wf': self.wf, 'coding': self.coding, 'conn_close': self.conn_close, 'tags': list(self.tags or [])}
 
     @staticmethod
     def from_case(c):
@@ -220,7 +220,7 @@ class Msg:
         for k in ('head', 'framed', 'surplus', 'payload', 'method', 'version', 'code', 'framing', 'wf', 'coding',
                   'conn_close'):
             setattr(m, k, c[k])
-        m.tags = []
+        m.tags = list(c.get('tags') or [])
         return m
 
 
